@@ -188,6 +188,10 @@ pub enum ScriptOp {
     /// all keys of the cluster share 18 bits (one depth-3 page), so the commit empties one first-layer slot of that page
     /// and fills the other one
     FlipCluster(usize, u8),
+    /// one commit inserting one fresh random key per listed value length
+    FillLens(&'static [usize]),
+    /// one commit deleting every committed key whose value has exactly this length
+    DeleteLen(usize),
 }
 
 /// directed histories selectable with `--focus script-…`
@@ -214,6 +218,10 @@ pub fn script_for(focus: &str) -> Option<Vec<ScriptOp>> {
             }
             Some(v)
         }
+        // the shape of the seeded change `C17-freelist-loop-release-flag`: a free list of one full page + a head page with 3 entries, then ONE
+        // commit that takes one page and frees more than two free-list pages' worth (the head page is vacated INSIDE the loop of
+        // `FreeList::preallocate` while a full on-disk page lies below it)
+        "script-freelist-vacate-in-loop" => Some(vec![FillLens(&[100, 4092 * 1023 - 100, 4092 * 2100 - 100]), DeleteLen(4092 * 1023 - 100), DeleteLen(4092 * 2100 - 100), Fill(1, 100)]),
         // a free list of several pages (> 1022 freed leaf pages) is written, read back by a reopen (the portions of a
         // multi-page list must come back in the same order), drained and refilled by commits after further reopens
         "script-freelist-reopen" => Some(vec![Fill(3300, 1300), DeleteAll, Reopen, Fill(40, 1300), Reopen, Fill(40, 1300), Fill(900, 1300), DeleteAll, Reopen, Fill(300, 1300), Reopen, Fill(30, 700),
@@ -1596,6 +1604,26 @@ impl<'a> Engine<'a> {
                     ws.sort();
                     ws.dedup_by(|a, b| a.0 == b.0);
                     if let Some(fid) = self.session_to_fin_with(&[], 6, 0, Some(ws)) {
+                        self.commit_fin(fid, false);
+                    }
+                }
+                ScriptOp::FillLens(lens) => {
+                    let ws: Vec<(Key, Option<Val>)> = lens
+                        .iter()
+                        .map(|len| {
+                            let k = self.rng.bytes32();
+                            let mut v = gen_value(&mut self.rng, false);
+                            v.resize(*len, 0x6b);
+                            (k, Some(v))
+                        })
+                        .collect();
+                    if let Some(fid) = self.session_writes(&[], &ws) {
+                        self.commit_fin(fid, false);
+                    }
+                }
+                ScriptOp::DeleteLen(len) => {
+                    let ws: Vec<(Key, Option<Val>)> = self.committed.iter().filter(|(_, v)| v.len() == len).map(|(k, _)| (*k, None)).collect();
+                    if let Some(fid) = self.session_writes(&[], &ws) {
                         self.commit_fin(fid, false);
                     }
                 }
